@@ -101,9 +101,16 @@ def _dot(ctx, p, rng):
     sb = (k,) if rb == 1 else tuple(int(v) for v in rng.integers(1, 4, size=rb - 2)) + (k, int(rng.integers(1, 4)))
     a = rng.normal(size=(D, P) + sa); b = rng.normal(size=(D, P) + sb)
     ucplx = rng.random() < 0.25          # complex polynomial operand(s)
+    which = int(rng.integers(3))           # complex: left only / right only / both (mixed real-complex polynomial operands)
     if ucplx:
-        a = a + 1j * rng.normal(size=a.shape) if kinds[0] == 'U' else a
-        b = b + 1j * rng.normal(size=b.shape) if kinds[1] == 'U' else b
+        a = a + 1j * rng.normal(size=a.shape) if (kinds[0] == 'U' and which != 1) else a
+        b = b + 1j * rng.normal(size=b.shape) if (kinds[1] == 'U' and which != 0) else b
+    elif kinds == 'UU' and rng.random() < 0.2:
+        # integer-valued polynomial of integer dtype on one side
+        if which == 0:
+            a = np.round(3 * a).astype(np.int64)
+        else:
+            b = np.round(3 * b).astype(np.int64)
     cdt = ['float64', 'int64', 'float32', 'complex128'][int(rng.integers(4))] if kinds != 'UU' else 'float64'
 
     def const(c):
@@ -164,7 +171,7 @@ def _trace(ctx, p, rng):
     D, P, n = p['D'], p['P'], p['n']
     m = n + int(rng.integers(0, 2))
     a = rng.normal(size=(D, P, n, m))
-    ok, r = _call(ctx, 'trace', [algopy.trace, UTPM.trace][int(rng.integers(2))], UTPM(a.copy()))
+    ok, r = _call(ctx, 'trace', [algopy.trace, UTPM.trace][int(rng.integers(2))], UTPM(gen.relayout(a, gen.LAYOUTS[int(rng.integers(5))])))
     if not ok:
         ctx.violation('trace:raises:' + type(r).__name__, {'n': n, 'm': m, 'error': repr(r)[:200]}); return
     ref = np.trace(a, axis1=2, axis2=3)
@@ -183,7 +190,7 @@ def _inv(ctx, p, rng):
     if cond > 1e3:
         ctx.skip('out_of_domain:cond'); return
     mech = 'inv:%s' % ('pivot' if pivot else 'nopivot')
-    ok, r = _call(ctx, mech, [algopy.inv, UTPM.inv][int(rng.integers(2))], UTPM(a.copy()))
+    ok, r = _call(ctx, mech, [algopy.inv, UTPM.inv][int(rng.integers(2))], UTPM(gen.relayout(a, gen.LAYOUTS[int(rng.integers(5))])))
     if not ok:
         ctx.violation(mech + ':raises:' + type(r).__name__, {'n': n, 'D': D, 'P': P, 'error': repr(r)[:200]}); return
     if not isinstance(r, UTPM) or r.data.shape != a.shape:
@@ -208,8 +215,9 @@ def _solve(ctx, p, rng):
     cond = max(lin.cond2(a[0, pp]) for pp in range(P))
     if cond > 1e3:
         ctx.skip('out_of_domain:cond'); return
-    A = UTPM(a.copy()) if kinds[0] == 'U' else a[0, 0].copy()
-    B = UTPM(b.copy()) if kinds[1] == 'U' else b[0, 0].copy()
+    lay = gen.LAYOUTS[int(rng.integers(5))]
+    A = UTPM(gen.relayout(a, lay)) if kinds[0] == 'U' else a[0, 0].copy()
+    B = UTPM(gen.relayout(b, gen.LAYOUTS[int(rng.integers(5))])) if kinds[1] == 'U' else np.array(b[0, 0], order='F' if lay == 'F' else 'C')
     mech = 'solve:%s:%s:%s' % (kinds, 'pivot' if pivot else 'nopivot', 'multi' if k > 1 else 'single')
     ok, r = _call(ctx, mech, [algopy.solve, UTPM.solve][int(rng.integers(2))], A, B)
     if not ok:
@@ -256,7 +264,7 @@ def _det(ctx, p, rng, log=False):
         ctx.skip('out_of_domain:cond'); return
     mech = '%s:%s' % (name, 'pivot' if pivot else 'nopivot')
     f = {'det': [algopy.det, UTPM.det], 'logdet': [algopy.logdet, UTPM.logdet]}[name][int(rng.integers(2))]
-    ok, r = _call(ctx, mech, f, UTPM(a.copy()))
+    ok, r = _call(ctx, mech, f, UTPM(gen.relayout(a, gen.LAYOUTS[int(rng.integers(5))])))
     if not ok:
         ctx.violation(mech + ':raises:' + type(r).__name__, {'n': n, 'D': D, 'P': P, 'error': repr(r)[:200]}); return
     if not isinstance(r, UTPM) or r.data.shape != (D, P):
@@ -295,7 +303,7 @@ def _expm(ctx, p, rng):
     for d in range(D):
         for pp in range(P):
             a[d, pp] *= 0.3 / max(np.linalg.norm(a[d, pp], 1), 1e-12) * rng.uniform(0.2, 1.0)
-    ok, r = _call(ctx, 'expm', algopy.expm, UTPM(a.copy()))
+    ok, r = _call(ctx, 'expm', algopy.expm, UTPM(gen.relayout(a, gen.LAYOUTS[int(rng.integers(5))])))
     if not ok:
         ctx.violation('expm:raises:' + type(r).__name__, {'n': n, 'D': D, 'P': P, 'error': repr(r)[:200]}); return
     if not isinstance(r, UTPM) or r.data.shape != a.shape:
